@@ -1,6 +1,7 @@
 """C07 - end-to-end discovery converges to the set of registered services (E1, deviation-bounded DFS)."""
 from __future__ import annotations
 
+import asyncio
 from typing import Any, Dict, List, Optional, Tuple
 
 from .. import wire
@@ -258,6 +259,22 @@ class Scenario:
                 ops.append((v["update_at"], lambda: w.spawn(op_update(A, "S1", newer))))
                 ops.append((v["update_at"] + 3000, lambda: start_browser("C/a", C, TA)))
                 checkpoints.append(v["update_at"] + 3000 + SETTLE_MS)
+            elif self.name == "flipflop":
+                # a description is changed and at once changed back (the application corrects a mistake): hosts that heard both
+                # hold the superseded SRV/TXT records next to the current ones (a cache-flush record leaves records younger
+                # than a second alone) for their whole TTL; a browser started there later resolves from that cache
+                ops.append((1000, lambda: w.spawn(op_register(A, "S1", S1))))
+                newer = Svc(S1.type, S1.name, S1.server, S1.port + 1, b"\x03a=c", S1.v4, S1.v6)
+
+                async def there_and_back() -> None:
+                    await op_update(A, "S1", newer)
+                    if v.get("pause_ms"):
+                        await asyncio.sleep(v["pause_ms"] / 1000)
+                    await op_update(A, "S1", S1)
+
+                ops.append((20_000, lambda: w.spawn(there_and_back())))
+                ops.append((v["browse_at"], lambda: start_browser("B/a", B, TA)))
+                checkpoints.append(v["browse_at"] + SETTLE_MS)
             elif self.name == "leave":
                 # the service is withdrawn (or its host closed) a few tens of milliseconds after a browser elsewhere started:
                 # the reply to the browser's first query and the goodbyes are on the link together
@@ -372,6 +389,8 @@ def plan(tier: str) -> List[Tuple[str, Dict[str, Any], int]]:
             ("leave", {"browse_at": 5000, "after": 30, "how": "unregister", "late": True, "socks": "dual"}, 2),
             ("leave", {"browse_at": 5000, "after": 130, "how": "close", "late": True, "socks": "dual"}, 2),
             ("idle", {"browse_at": 0}, 1), ("flap", {"browse_at": 0}, 1),
+            ("flipflop", {"browse_at": 23_000, "new_object": True}, 1), ("flipflop", {"browse_at": 23_000}, 1),
+            ("flipflop", {"browse_at": 60_000, "new_object": True, "pause_ms": 400}, 1),
             ("unregister", {"browse_at": 0, "browse_cased": True}, 1), ("unregister", {"browse_at": 5000, "browse_cased": True}, 1),
             ("unregister", {"browse_at": 5000, "late": True, "browse_cased": True}, 1),
             ("reregister", {"browse_at": 0}, 1), ("reregister", {"browse_at": 30_000, "late": True}, 1),
@@ -388,6 +407,9 @@ def plan(tier: str) -> List[Tuple[str, Dict[str, Any], int]]:
             ("update-queued", {"browse_at": 1850, "update_at": 2000, "qm": True, "late": True, "new_object": True, "cased": True}, 1),
             ("stale-cache", {"browse_at": 2_400_000}, 2), ("stale-cache", {"browse_at": 3_900_000}, 1),
             ("stale-cache", {"browse_at": 2_400_000, "multi": True}, 1),
+            # ... or when it has just run out and the periodic purge has not come by yet
+            ("stale-cache", {"browse_at": 4_502_000}, 1), ("stale-cache", {"browse_at": 4_507_000}, 1),
+            ("stale-cache", {"browse_at": 4_512_000}, 1),
             ("three", {"browse_at": 500, "long": True}, 1), ("three", {"browse_at": 6000, "late": True, "long": True}, 1),
             # the same link with IPv6-only hosts, and with hosts that send on an IPv4 and an IPv6 socket (every datagram twice)
             ("unregister", {"browse_at": 0, "socks": "single6"}, 2), ("update-close", {"browse_at": 5000, "late": True, "socks": "single6"}, 2),
@@ -408,7 +430,7 @@ def run(tier: str, seed: int) -> Tuple[Stats, str, List[str], Dict[str, Any]]:
         label = f"{name}/{variant['browse_at']}{'/late' if variant.get('late') else ''}{'/multi' if variant.get('multi') else ''}{'/' + variant['socks'] if variant.get('socks') else ''}{'/' + variant['how'] + '+' + str(variant['after']) if name == 'leave' else ''}{'/qm' if variant.get('qm') else ''}{'/long' if variant.get('long') else ''}{'/browse_cased' if variant.get('browse_cased') else ''}" + (
             f"/unreg+{variant['unregister_after']}" if name == "churn" else "") + "".join(
             f"/{k}={variant[k]}" if not isinstance(variant[k], bool) else f"/{k}" for k in ("update_at", "cased", "addr", "new_object")
-            if k in variant and name == "update-queued") + ("/readdress" if variant.get("readdress") else "")
+            if k in variant and name in ("update-queued", "flipflop")) + ("/readdress" if variant.get("readdress") else "")
         done = explore_deviations(sc.run, bound, stats, label,
                                   max_execs=None if tier == "quick" else 1_500_000)
         completed[label] = done
